@@ -164,6 +164,8 @@ class Emitter:
         k = op[0]
         o = []
         ind = indent
+        if k in ("open", "open_buf", "newin", "restart"):
+            o.append("%svf_rewind(%s, %d);" % (ind, C, op[1]))
         if k == "open":
             o.append('%svf_X(%s, "open %d");' % (ind, C, op[1]))
             if fl.nr:
@@ -171,6 +173,18 @@ class Emitter:
             else:
                 o.append("%syyset_in(%s, yyscanner); yyset_out(%s->out, yyscanner);" % (
                     ind, self.src_fp(op[1]), C))
+        elif k == "open_buf":
+            self.uses.add("bufhelpers")
+            o.append('%svf_X(%s, "open_buf %d");' % (ind, C, op[1]))
+            if fl.nr:
+                o.append("%syyin = %s; yyout = %s->out;" % (ind, self.src_fp(op[1]), C))
+            else:
+                o.append("%syyset_in(%s, yyscanner); yyset_out(%s->out, yyscanner);" % (
+                    ind, self.src_fp(op[1]), C))
+            o.append("%s%s->slot[0] = %s; %s->slotsrc[0] = %d; %s->bstk[0] = 0; %s->bdepth = 1;" % (
+                ind, C, fl.call("yy_create_buffer", "%s, YY_BUF_SIZE" % self.src_fp(op[1])),
+                C, op[1], C, C))
+            o.append("%s%s;" % (ind, fl.call("yy_switch_to_buffer", "(yybuffer) %s->slot[0]" % C)))
         elif k == "newin":
             o.append('%svf_X(%s, "newin %d");' % (ind, C, op[1]))
             if fl.nr:
@@ -220,6 +234,16 @@ class Emitter:
             o.append('%svf_X(%s, "delete %d");' % (ind, C, op[1]))
             o.append("%s%s; %s->slot[%d] = 0;" % (ind, fl.call(
                 "yy_delete_buffer", "(yybuffer) %s->slot[%d]" % (C, op[1])), C, op[1]))
+        elif k in ("gcreate", "gswitch", "gpush", "gpop", "gdelete", "gscan_bytes",
+                   "gscan_string", "gscan_buffer", "gflush"):
+            self.uses.add("bufhelpers")
+            args = [str(a) for a in op[1:]]
+            if k == "gcreate" and len(op) < 4:
+                args.append("0")
+            if k == "gscan_buffer":
+                args[-1] = "1" if op[3] else "0"
+            a = ", ".join(args + ([fl.a0] if fl.a0 else []))
+            o.append("%svfb_%s(%s);" % (ind, k[1:], a))
         elif k == "setlineno":
             o.append('%svf_X(%s, "setlineno %d");' % (ind, C, op[1]))
             if self.track_ln:
@@ -323,6 +347,17 @@ class Emitter:
                 L.append("#define YY_INPUT(buf,result,max_size) do { (result) = vf_read(%s, yyin, "
                          "(buf), (size_t) (max_size)); } while (0)" % C)
             L.append("#define YY_FATAL_ERROR(msg) vf_fatal(%s, (msg))" % C)
+        if "bufhelpers" in self.uses:
+            pa = ", yyscan_t yyscanner" if fl.a0 else ""
+            p0 = "yyscan_t yyscanner" if fl.a0 else "void"
+            for proto in ("vfb_create(int s, int src, int size%s)" % pa,
+                          "vfb_switch(int s%s)" % pa, "vfb_push(int s%s)" % pa,
+                          "vfb_pop(%s)" % p0, "vfb_dopop(%s)" % p0, "vfb_delete(int s%s)" % pa,
+                          "vfb_scan_bytes(int s, int si%s)" % pa,
+                          "vfb_scan_string(int s, int si%s)" % pa,
+                          "vfb_scan_buffer(int s, int si, int ok%s)" % pa,
+                          "vfb_flush(int s%s)" % pa):
+                L.append("static void %s;" % proto)
         L.append("%}")
         opts = []
         if fl.r:
@@ -415,6 +450,7 @@ class Emitter:
             L.append("void *yyrealloc(void *p, %s n%s) { return vf_realloc(%s, p, n); }" % (
                 sz, ext, C))
             L.append("void yyfree(void *p%s) { vf_free(%s, p); }" % (ext, C))
+        L.append("@@BUFHELPERS@@")
         # yywrap
         ws = case.get("wrap", [])
         L.append("int yywrap(%s) {" % a0)
@@ -425,7 +461,7 @@ class Emitter:
             if op[0] == "stop":
                 L.append("\t\tvf_W(c, k, 1); return 1;")
             elif op[0] == "next":
-                L.append("\t\tvf_W(c, k, 0);")
+                L.append("\t\tvf_W(c, k, 0); vf_rewind(c, %d);" % op[1])
                 if fl.nr:
                     L.append("\t\tyyin = c->src[%d].fp;" % op[1])
                 else:
@@ -437,11 +473,9 @@ class Emitter:
                                              "(yybuffer) c->slot[%d]" % op[1]))
                 L.append("\t\treturn 0;")
             elif op[0] == "pop":
-                L.append("\t\tif (c->flags & 0) {}")
-                L.append("\t\t{ int more = vf_bufdepth(%s) > 1; vf_W(c, k, more ? 0 : 1); "
-                         "if (more) { %s; return 0; } return 1; }" % (
-                             fl.a0, fl.call("yypop_buffer_state")))
-                self.uses.add("bufdepth")
+                L.append("\t\t{ int more = c->bdepth > 1; vf_W(c, k, more ? 0 : 1); "
+                         "if (more) { vfb_dopop(%s); return 0; } return 1; }" % fl.a0)
+                self.uses.add("bufhelpers")
             else:
                 raise ValueError(op)
         L.append("\tdefault: vf_W(c, k, 1); return 1;")
@@ -499,7 +533,80 @@ class Emitter:
         L.append("\tvf_ev1(&ctx, \"Z\");")
         L.append("\tvf_finish(&ctx, 0);")
         L.append("}")
+        i = L.index("@@BUFHELPERS@@")
+        L[i:i + 1] = self.buffer_helpers() if "bufhelpers" in self.uses else []
         return L
+
+    def buffer_helpers(self):
+        """Guarded buffer operations: each is executed only when it is valid in the current
+        state (slot alive / not on the stack / ...), by rules the model applies identically,
+        so random histories stay inside what the manual permits."""
+        fl = self.fl
+        P = "yyscan_t yyscanner" if fl.a0 else "void"
+        PA = ", yyscan_t yyscanner" if fl.a0 else ""
+        c = C
+        call = fl.call
+        H = []
+        H.append("static int vfb_onstack(int s) { int i; for (i = 0; i < %s->bdepth; ++i) "
+                 "if (%s->bstk[i] == s) return 1; return 0; }" % (c, c))
+        H.append("static int vfb_srcused(int src) { int i; for (i = 0; i < VF_MAXSLOT; ++i) "
+                 "if (%s->slot[i] && %s->slotsrc[i] == src) return 1; return 0; }" % (c, c))
+        H.append("static void vfb_skip(const char *w) { char b[64]; snprintf(b, sizeof b, "
+                 "\"skip %%s\", w); vf_X(%s, b); }" % c)
+        H.append("static void vfb_free(int s) { %s->slot[s] = 0; %s->slotsrc[s] = -1; "
+                 "if (%s->slotmem[s]) { free(%s->slotmem[s]); %s->slotmem[s] = 0; } }"
+                 % (c, c, c, c, c))
+        H.append("static void vfb_create(int s, int src, int size%s) { char b[64]; "
+                 "if (%s->slot[s] || vfb_srcused(src)) { vfb_skip(\"create\"); return; } "
+                 "snprintf(b, sizeof b, \"create %%d %%d\", s, src); vf_X(%s, b); vf_rewind(%s, src); "
+                 "%s->slot[s] = %s; %s->slotsrc[s] = src; }" % (
+                     PA, c, c, c, c, call("yy_create_buffer",
+                                       "%s->src[src].fp, size ? size : YY_BUF_SIZE" % c), c))
+        H.append("static void vfb_switch(int s%s) { char b[64]; "
+                 "if (!%s->slot[s] || vfb_onstack(s)) { vfb_skip(\"switch\"); return; } "
+                 "snprintf(b, sizeof b, \"switch %%d\", s); vf_X(%s, b); %s; "
+                 "%s->bstk[%s->bdepth - 1] = s; }" % (
+                     PA, c, c, call("yy_switch_to_buffer", "(yybuffer) %s->slot[s]" % c), c, c))
+        H.append("static void vfb_push(int s%s) { char b[64]; "
+                 "if (!%s->slot[s] || vfb_onstack(s) || %s->bdepth >= VF_MAXSLOT) "
+                 "{ vfb_skip(\"push\"); return; } "
+                 "snprintf(b, sizeof b, \"bpush %%d\", s); vf_X(%s, b); %s; "
+                 "%s->bstk[%s->bdepth++] = s; }" % (
+                     PA, c, c, c, call("yypush_buffer_state", "(yybuffer) %s->slot[s]" % c),
+                     c, c))
+        H.append("static void vfb_dopop(%s) { int s = %s->bstk[%s->bdepth - 1]; %s; "
+                 "%s->bdepth--; vfb_free(s); }" % (P, c, c, call("yypop_buffer_state"), c))
+        H.append("static void vfb_pop(%s) { if (%s->bdepth <= 1) { vfb_skip(\"pop\"); return; } "
+                 "vfb_dopop(%s); vf_X(%s, \"bpop\"); }" % (P, c, fl.a0, c))
+        H.append("static void vfb_delete(int s%s) { char b[64]; "
+                 "if (!%s->slot[s] || vfb_onstack(s)) { vfb_skip(\"delete\"); return; } "
+                 "snprintf(b, sizeof b, \"delete %%d\", s); vf_X(%s, b); %s; vfb_free(s); }" % (
+                     PA, c, c, call("yy_delete_buffer", "(yybuffer) %s->slot[s]" % c)))
+        for nm, arg in (("scan_bytes", "vf_t, (int) vf_n"), ("scan_string", "vf_t")):
+            H.append("static void vfb_%s(int s, int si%s) { char b[64]; size_t vf_n = %s->strn[si]; "
+                     "char *vf_t; if (%s->slot[s]) { vfb_skip(\"%s\"); return; } "
+                     "snprintf(b, sizeof b, \"%s %%d %%d\", s, si); vf_X(%s, b); "
+                     "vf_t = (char *) malloc(vf_n + 1); memcpy(vf_t, %s->str[si], vf_n); vf_t[vf_n] = 0; "
+                     "%s->slot[s] = %s; %s->slotsrc[s] = -1; %s->bstk[%s->bdepth - 1] = s; "
+                     "memset(vf_t, 'Z', vf_n); free(vf_t); }" % (
+                         nm, PA, c, c, nm, nm, c, c, c, call("yy_" + nm, arg), c, c, c))
+        H.append("static void vfb_scan_buffer(int s, int si, int ok%s) { char b[64]; "
+                 "size_t n = %s->strn[si]; char *m; void *r; "
+                 "if (%s->slot[s]) { vfb_skip(\"scan_buffer\"); return; } "
+                 "m = (char *) malloc(n + 2); memcpy(m, %s->str[si], n); "
+                 "m[n] = ok ? 0 : 'x'; m[n + 1] = 0; r = %s; "
+                 "snprintf(b, sizeof b, \"scan_buffer %%d %%d %%s\", s, si, r ? \"ok\" : \"null\"); "
+                 "vf_X(%s, b); if (r) { %s->slot[s] = r; %s->slotsrc[s] = -1; %s->slotmem[s] = m; "
+                 "%s->bstk[%s->bdepth - 1] = s; } else free(m); }" % (
+                     PA, c, c, c, call("yy_scan_buffer", "m, n + 2"), c, c, c, c, c, c))
+        H.append("static void vfb_flush(int s%s) { char b[64]; "
+                 "if (!%s->slot[s]) { vfb_skip(\"flush\"); return; } "
+                 "if (%s->slotsrc[s] < 0) snprintf(b, sizeof b, \"flush %%d -\", s); "
+                 "else snprintf(b, sizeof b, \"flush %%d %%ld\", s, "
+                 "(long) %s->src[%s->slotsrc[s]].pos); "
+                 "vf_X(%s, b); %s; }" % (
+                     PA, c, c, c, c, c, call("yy_flush_buffer", "(yybuffer) %s->slot[s]" % c)))
+        return H
 
 
 def pack(case, sched=None, flags=0, alloc_fail_at=0, read_faults=()):
